@@ -102,6 +102,7 @@ fn outcome_word(o: &Outcome) -> &'static str {
 // C07: parse then re-serialise is the identity
 
 pub fn c07_case(d: &[u8], label: &str) -> CaseOut {
+    crate::util::in_flight(&replay_stream("rewrite", d));
     let mut out = CaseOut::default();
     let parsed = guarded(|| vh::parse(d));
     let resp = match &parsed {
@@ -187,6 +188,7 @@ pub fn c07_case(d: &[u8], label: &str) -> CaseOut {
 
 pub fn c03_case(c: &Case, idx: u64) -> CaseOut {
     let d = &c.s.bytes;
+    crate::util::in_flight(&replay_stream("stream", d));
     let mut out = CaseOut::default();
     let verify = idx % 2 == 0;
     let imp = decompress(d, verify);
@@ -234,6 +236,7 @@ pub fn c03_case(c: &Case, idx: u64) -> CaseOut {
 // C05: totality
 
 pub fn c05_bytes(d: &[u8], label: &str, with_parse_request: bool) -> CaseOut {
+    crate::util::in_flight(&replay_stream("stream", d));
     let mut out = CaseOut::default();
     if with_parse_request {
         let parsed = guarded(|| vh::parse(d));
@@ -281,6 +284,7 @@ pub fn c05_bytes(d: &[u8], label: &str, with_parse_request: bool) -> CaseOut {
 
 pub fn c02_case(c: &Case, r: &mut Rng) -> CaseOut {
     let d = &c.s.bytes;
+    crate::util::in_flight(&replay_stream("stream", d));
     let label = &c.s.label;
     let mut out = CaseOut::default();
     let a = decompress(d, true);
@@ -518,6 +522,7 @@ pub fn c08_case(c: &Case, r: &mut Rng, nperturb: usize, max_limit: u32) -> CaseO
     }
     for (v, is_est) in vectors {
         let replay = format!("params {} {}", vec_str(&v), hex(d));
+        crate::util::in_flight(&replay);
         let analysis = guarded(|| vh::analyze_with_params(d, &v));
         if d.len() <= 2500 {
             let resp = match &analysis {
@@ -811,6 +816,147 @@ pub fn boundary_streams(r: &mut Rng, thorough: bool) -> Vec<(Vec<u8>, String)> {
             }
             let dynamic = r.chance(1, 2);
             out.push((encode_tokens(r, &toks, dynamic), format!("boundary pos={pos} dist={dist} short={short} variant={variant}")));
+        }
+    }
+    out
+}
+
+/// zlib with lazy matching (levels 4..9) and tiny blocks (memLevel 1..2) over match-rich inputs of
+/// 30..70 KB: many block boundaries fall right after a "lazy" literal, i.e. while the predictor
+/// holds a pending match — state that must be handled identically by analysis and reconstruction
+pub fn lazy_small_block_case(seed: u64, idx: u64) -> Case {
+    let mut r = Rng::new(seed.wrapping_mul(0x9E3779B97F4A7C15) ^ idx.wrapping_mul(0xC2B2AE3D27D4EB4F) ^ 0x1a2);
+    let n = r.range(30000, 70000) as usize;
+    // a long chunk repeated three times first (matches of 258 and references into their interior make
+    // the estimator pick "add all substrings" and with it the lazy, zlib-compatible levels), then a
+    // word soup with phrases copied from earlier text with small mutations
+    let mut p: Vec<u8> = Vec::with_capacity(n);
+    let chunk: Vec<u8> = (0..700).map(|_| b'a' + r.below(20) as u8).collect();
+    for _ in 0..3 {
+        p.extend_from_slice(&chunk);
+        p.push(b'#');
+    }
+    let nwords = 20 + r.below(60) as usize;
+    let alpha = 4 + r.below(8);
+    let words: Vec<Vec<u8>> = (0..nwords).map(|_| { let l = 2 + r.below(9); (0..l).map(|_| b'a' + r.below(alpha) as u8).collect() }).collect();
+    while p.len() < n {
+        if r.chance(1, 4) && p.len() > 50 {
+            let l = 8 + r.below(40) as usize;
+            let start = r.below((p.len() - l.min(p.len() - 1)) as u64) as usize;
+            let mut phrase: Vec<u8> = p[start..(start + l).min(p.len())].to_vec();
+            if r.chance(1, 2) && !phrase.is_empty() {
+                let i = r.below(phrase.len() as u64) as usize;
+                phrase[i] = b'A' + r.below(26) as u8;
+            }
+            p.extend_from_slice(&phrase);
+        } else {
+            p.extend_from_slice(&words[r.below(nwords as u64) as usize]);
+            p.push(b' ');
+        }
+    }
+    p.truncate(n);
+    let level = r.range(4, 9) as i32;
+    let mem = r.range(1, 2) as i32;
+    let bytes = crate::comp::zlib_deflate(&p, level, 0, 15, mem, 0, 0);
+    Case { s: StreamCase { bytes, label: format!("zlib-lazy-small-blocks l{level} m{mem} n{n}"), plain: Some(p) }, source: Source::Real }
+}
+
+/// consecutive dynamic blocks that transmit the SAME code length list but split it differently
+/// between the literal/length and the distance alphabet (HLIT + k, HDIST - k), with stored / fixed
+/// blocks optionally in between: state carried from one block's tables to the next shows here
+pub fn split_shift_streams(r: &mut Rng) -> Vec<(Vec<u8>, String)> {
+    use crate::gen::*;
+    let mut out = Vec::new();
+    for k in 1..=3usize {
+        for kk in 0..=k {
+            for between in 0..3 {
+                // literal/length: 'a', 'b', end of block, length code 257 (= 3 bytes), all 2 bits
+                let hlit1 = 258usize;
+                let mut comb = vec![0u8; hlit1];
+                for s in [97usize, 98, 256, 257] {
+                    comb[s] = 2;
+                }
+                // distance: k unused codes, then two 1-bit codes
+                comb.extend(std::iter::repeat(0u8).take(k));
+                comb.extend([1u8, 1]);
+                let cl_len = {
+                    let mut cl = vec![0u8; 19];
+                    cl[0] = 1;
+                    cl[1] = 2;
+                    cl[2] = 2;
+                    cl
+                };
+                let clc = canonical(&cl_len);
+                let hclen = (CL_ORDER.iter().rposition(|&s| cl_len[s] != 0).unwrap() + 1).max(4);
+                let mut w = BitW::new();
+                let mut plain: Vec<u8> = Vec::new();
+                let mut emit_block = |w: &mut BitW, plain: &mut Vec<u8>, hlit: usize, last: bool, r: &mut Rng| {
+                    let ll = &comb[..hlit];
+                    let dl = &comb[hlit..];
+                    let llc = canonical(ll);
+                    let dc = canonical(dl);
+                    w.bits(last as u32, 1);
+                    w.bits(2, 2);
+                    w.bits(hlit as u32 - 257, 5);
+                    w.bits(dl.len() as u32 - 1, 5);
+                    w.bits(hclen as u32 - 4, 4);
+                    for i in 0..hclen {
+                        w.bits(cl_len[CL_ORDER[i]] as u32, 3);
+                    }
+                    for &x in comb.iter() {
+                        w.code(clc[x as usize], cl_len[x as usize] as u32);
+                    }
+                    let first_d = dl.iter().position(|&x| x != 0).unwrap();
+                    for _ in 0..6 {
+                        let b = if r.chance(1, 2) { 97u8 } else { 98 };
+                        w.code(llc[b as usize], 2);
+                        plain.push(b);
+                    }
+                    for _ in 0..4 {
+                        let dcode = first_d + r.below(2) as usize;
+                        let dist = DIST_BASE[dcode] + r.below(1 << DIST_EXTRA[dcode]) as u32;
+                        if dist as usize > plain.len() {
+                            continue;
+                        }
+                        w.code(llc[257], 2);
+                        w.code(dc[dcode], 1);
+                        w.bits(dist - DIST_BASE[dcode], DIST_EXTRA[dcode]);
+                        for _ in 0..3 {
+                            let b = plain[plain.len() - dist as usize];
+                            plain.push(b);
+                        }
+                        let b = if r.chance(1, 2) { 97u8 } else { 98 };
+                        w.code(llc[b as usize], 2);
+                        plain.push(b);
+                    }
+                    w.code(llc[256], 2);
+                };
+                emit_block(&mut w, &mut plain, hlit1, false, r);
+                match between {
+                    1 => {
+                        // an empty stored block
+                        w.bits(0, 1);
+                        w.bits(0, 2);
+                        w.pad(0);
+                        w.bits(0, 16);
+                        w.bits(0xffff, 16);
+                    }
+                    2 => {
+                        // a fixed block with one literal
+                        w.bits(0, 1);
+                        w.bits(1, 2);
+                        let (fl, _) = fixed_lengths();
+                        let flc = canonical(&fl);
+                        w.code(flc[97], fl[97] as u32);
+                        plain.push(97);
+                        w.code(flc[256], 7);
+                    }
+                    _ => {}
+                }
+                emit_block(&mut w, &mut plain, hlit1 + kk, true, r);
+                w.pad(0);
+                out.push((w.out.clone(), format!("split-shift k={k} second-hlit=+{kk} between={between}")));
+            }
         }
     }
     out
